@@ -5,11 +5,56 @@ from . import common as C
 from . import stepref
 
 
-class DecodedLine:
-    """Result of bytes.decode() on symbolic bytes, kept as a function of the byte tuple."""
+ASCII_WS = (9, 10, 11, 12, 13, 28, 29, 30, 31, 32)  # what str.strip() removes below 128
 
-    def __init__(self, atoms):
+
+class DecodedLine:
+    """Result of bytes.decode() on symbolic bytes, kept as a function of the byte tuple.  Only
+    what line handlers do before parsing is supported: stripping ASCII blanks, emptiness."""
+
+    def __init__(self, atoms, it=None):
         self.atoms = tuple(atoms)
+        self.it = it
+
+    def __len__(self):
+        return len(self.atoms)
+
+    def _blank(self, p, x):
+        import z3
+        if isinstance(x, int):
+            return x in ASCII_WS
+        return p.branch(z3.Or([x == c for c in ASCII_WS]))
+
+    def __symex_getattr__(self, it, name):
+        if name not in ("strip", "rstrip", "lstrip"):
+            from symex.core import Unsupported
+            raise Unsupported(f"str.{name} on an undecoded line")
+        line = self
+
+        def strip(*args):
+            atoms = list(line.atoms)
+            if name in ("strip", "lstrip"):
+                while atoms and line._blank(it.p, atoms[0]):
+                    atoms.pop(0)
+            if name in ("strip", "rstrip"):
+                while atoms and line._blank(it.p, atoms[-1]):
+                    atoms.pop()
+            return DecodedLine(atoms, it)
+        strip.__symex_native__ = True
+        return strip
+
+
+def is_blank(w, atoms):
+    """All bytes are ASCII blanks (a line the decoder rejects whatever else happens)."""
+    import z3
+    if not w.symbolic:
+        return all(b in ASCII_WS for b in atoms)
+    conj = [(x in ASCII_WS) if isinstance(x, int) else z3.Or([x == c for c in ASCII_WS])
+            for x in atoms]
+    if any(c is False for c in conj):
+        return False
+    conj = [c for c in conj if c is not True]
+    return w.is_true(z3.And(conj)) if conj else True
 
 
 def segmentation(nbytes, maxchunks):
@@ -26,6 +71,7 @@ def segmentation(nbytes, maxchunks):
             cuts.append(c)
             lo = c
         bounds = [0] + cuts + [n]
+        via = w.pick(["protocol", "tcp-reader"], "delivered_by")
         env = C.make_env(w)
         with env.installed():
             g = C.make_gateway(w, "2.2")
@@ -41,10 +87,13 @@ def segmentation(nbytes, maxchunks):
             else:
                 atoms = list(stream)
                 chunks = [bytes(atoms[a:b]) for a, b in zip(bounds, bounds[1:])]
-            w.info = {"stream": stream, "cuts": cuts}
+            w.info = {"stream": stream, "cuts": cuts, "delivered_by": via}
             try:
-                for ch in chunks:
-                    w.call(proto.data_received, ch)
+                if via == "protocol":
+                    for ch in chunks:
+                        w.call(proto.data_received, ch)
+                else:
+                    feed_through_tcp_reader(w, env, proto, chunks)
             except Exception as exc:
                 w.escaped(exc, "data_received raised")
             # reference: split of the whole stream at LF (positions decided on this path)
@@ -56,6 +105,16 @@ def segmentation(nbytes, maxchunks):
                 else:
                     cur.append(b)
             got = [args[1] for args in lines]
+            # blank lines are rejected by the decoder in any case: a handler may drop them early
+            want = [e_ for e_ in want if not is_blank(w, e_)]
+
+            def atoms_of(x):
+                if isinstance(x, DecodedLine):
+                    return list(x.atoms)
+                if isinstance(x, str):
+                    return list(x.encode("utf-8"))
+                return list(x.cs)
+            got = [g_ for g_ in got if not is_blank(w, atoms_of(g_))]
             w.check(len(got) == len(want), "number of delivered lines depends on the chunking")
             for g_, e_ in zip(got, want):
                 if w.symbolic:
@@ -72,6 +131,44 @@ def segmentation(nbytes, maxchunks):
             w.check(len(rest) == len(cur), "bytes after the last LF are not kept buffered")
             w.goal("lines" if want else "no-line")
     return fn
+
+
+def feed_through_tcp_reader(w, env, proto, chunks):
+    """The threaded TCP gateway's reader loop (TCPTransport.run) with a socket that delivers the
+    chunks one recv() at a time, then the user stops the gateway."""
+    import select as _select
+    import time as _time
+    from mysensors import gateway_tcp
+    pending = [c for c in chunks]
+    holder = {}
+
+    class Sock:
+        __symex_native__ = True
+
+        def setblocking(self, flag):
+            pass
+
+        def recv(self, n):
+            return pending.pop(0)
+
+        def close(self):
+            pass
+    sock = Sock()
+    env.add(_select.select, lambda a, k: ([sock] if pending else [], [sock], []), "select.select")
+
+    def sleeper(a, k):
+        if not pending:
+            holder["t"].alive = False
+        return None
+    env.add(_time.sleep, sleeper, "time.sleep")
+
+    def check_conn():
+        return None
+    check_conn.__symex_native__ = True
+    with env.installed():
+        t = w.new(gateway_tcp.TCPTransport, sock, C.Factory(proto), check_conn)
+        holder["t"] = t
+        w.call(t.run)
 
 
 def two_lines(versions, shapes):
@@ -144,6 +241,7 @@ def build(tier):
     hs = [
         Harness("segmentation", segmentation(5 if q else 7, 3),
                 {"stream_bytes_max": 5 if q else 7, "chunks": 3, "bytes": "symbolic 0..255",
+                 "delivered_by": ["protocol.data_received", "TCPTransport.run (recv per chunk)"],
                  "decode": "uninterpreted function of the byte tuple"},
                 goals=["lines", "no-line"],
                 doc="Packetizer/LineReader framing is independent of the chunking"),
